@@ -14,7 +14,6 @@ import (
 	"github.com/IBM/TSS/testutil/tlsgen"
 	"pgregory.net/rapid"
 
-	"verif/core/sim"
 	"verif/vh"
 )
 
@@ -40,7 +39,7 @@ func (w *c17World) remoteFor(p *c17Party, endpoint string, id int) tssnet.Socket
 	rp := tssnet.NewSocketRemoteParty(tssnet.PartyConnectionConfig{
 		AuthFunc: func(b []byte) tssnet.Handshake { return signedHandshake(ident, "", b) },
 		Domain:   "", Id: id, Endpoint: endpoint, TlsCAs: p.srv.Pool,
-	}, &sim.Logger{})
+	}, &nopLogger{})
 	return tssnet.SocketRemoteParties{id: rp}
 }
 
